@@ -1,6 +1,7 @@
 import JwtProofs.Validate
 import JwtModel.Gen.Validation
 import Props.FnTie
+import Props.C06
 /-!
 # C07 — expiry and not-before are enforced for every claim kind
 
@@ -71,5 +72,20 @@ private def sample (exp nbf : Int) : Claims :=
   ⟨.generic, .struct [("exp".toList, .int exp), ("nbf".toList, .int nbf)]⟩
 example : expired 100 (sample 5 0) ∧ ¬ notYetValid 100 (sample 5 0) := by decide
 example : ¬ expired 100 (sample (-5) 200) ∧ notYetValid 100 (sample (-5) 200) := by decide
+
+/-! ## The same statement about the code translated from today's source -/
+
+open Jwt.FnTie Jwt.Gen.Fn in
+/-- **C07 for the translated code.** For every claim kind, the validators translated from today's source, followed by
+`IsBlocking(true)`, never panic and answer `true` exactly when a catalogue row is violated or the claims are expired
+or not yet valid at `now`; with `IsBlocking(false)` the clock plays no part (`C06.gen_blocking_iff`). -/
+theorem gen_time_blocking (env : VEnv) (cr : Crypto) (opq : V2.Opq) (ok : OpqOk env cr opq) (now : Int) (c : Claims) :
+    ∃ w, C06.genValidate opq now c = some w ∧
+      V2.ValidationResults_IsBlocking w true =
+        some (C06.bad env cr c || decide (expired now c ∨ notYetValid now c)) := by
+  obtain ⟨l, h, hp⟩ := C06.genValidate_eq env cr opq ok now c
+  refine ⟨_, h, ?_⟩
+  rw [isBlocking_push_vr0, isBlocking_perm hp, isBlocking_split, C06.blocking_iff, time_issue_count]
+  by_cases h1 : expired now c <;> by_cases h2 : notYetValid now c <;> simp [h1, h2]
 
 end Jwt.C07
